@@ -17,16 +17,15 @@ OPS = ('start', 'stop', 'speed', 'set', 'read')
 
 LEVELS = {
     'quick': [
-        {'name': 'L1-between-K4', 'harness': 'hist', 'mode': 'between', 'K': 4, 'budget_s': 150},
-        {'name': 'L1-within-K3', 'harness': 'hist', 'mode': 'within', 'K': 3, 'budget_s': 100},
+        {'name': 'L1-between-K6', 'harness': 'hist', 'mode': 'between', 'K': 6, 'budget_s': 150},
+        {'name': 'L1-within-K5', 'harness': 'hist', 'mode': 'within', 'K': 5, 'budget_s': 100},
         {'name': 'L1-inductive', 'harness': 'ind', 'budget_s': 60},
-        {'name': 'L1-sync-K3', 'harness': 'sync', 'K': 3, 'budget_s': 60},
+        {'name': 'L1-sync-K4', 'harness': 'sync', 'K': 4, 'budget_s': 90},
     ],
     'thorough': [
-        {'name': 'L2-between-K6', 'harness': 'hist', 'mode': 'between', 'K': 6, 'budget_s': 1500},
-        {'name': 'L2-within-K5', 'harness': 'hist', 'mode': 'within', 'K': 5, 'budget_s': 900},
-        {'name': 'L2-inductive', 'harness': 'ind', 'budget_s': 120},
-        {'name': 'L2-sync-K5', 'harness': 'sync', 'K': 5, 'budget_s': 300},
+        {'name': 'L2-between-K7', 'harness': 'hist', 'mode': 'between', 'K': 7, 'budget_s': 1500},
+        {'name': 'L2-within-K6', 'harness': 'hist', 'mode': 'within', 'K': 6, 'budget_s': 900},
+        {'name': 'L2-sync-K6', 'harness': 'sync', 'K': 6, 'budget_s': 900},
     ],
 }
 WITNESSES = ['set_below_rejected', 'set_accepted', 'advance_while_started', 'still_while_stopped',
@@ -48,7 +47,7 @@ def shards(level):
         return [{'prefix': list(p)} for p in itertools.product(range(len(OPS)), repeat=k)]
     if level['harness'] == 'ind':
         return [{'op': o, 'play': p} for o in range(len(OPS)) for p in (0, 1)]
-    return [{'sync': 1}]
+    return [{'sync': 1, 'q': [q0, q1], 'm': [m0, m1]} for q0 in range(3) for m0 in range(2) for q1 in range(3) for m1 in range(2)]
 
 
 def canary_job():
@@ -228,7 +227,7 @@ def sync(g, job, level):
         expected = it.clock.time
         before = it.time
         g.prove(Eq(sy.time, before), 'sync_unchanged_between_steps', {'k': k})
-        q = g.choice('q%d' % k, 3)
+        q = job['q'][k] if k < len(job.get('q', [])) else g.choice('q%d' % k, 3)
         if q == 1:
             it.queue('e')
         elif q == 2:
@@ -245,7 +244,7 @@ def sync(g, job, level):
         g.witness('sync_after_step')
         # the follower of `mid` shows mid's last step time, also while the root has already moved on
         g.prove(Eq(sy2.time, mid.time), 'chained_sync_follows_its_own_interpreter', {'k': k, 'phase': 'root stepped'})
-        if g.choice('m%d' % k, 2):
+        if (job['m'][k] if k < len(job.get('m', [])) else g.choice('m%d' % k, 2)):
             mid.execute_once()
             g.prove_all([('chained_sync_follows_its_own_interpreter', Eq(sy2.time, mid.time), {'k': k, 'phase': 'mid stepped'}),
                          ('mid_time_is_root_step_time', Eq(mid.time, it.time), {'k': k})])
